@@ -39,18 +39,18 @@ import (
 func init() { core.Register("C04", run) }
 
 type job struct {
-	Kind   string `json:"kind"`  // "graph" | "random"
-	Graph  string `json:"graph"` // compact graph file
-	Name   string `json:"name"`  // config name
-	Idx    int    `json:"idx"`
-	N      int    `json:"n"`
-	Inst   int    `json:"inst"`  // instantiations per behaviour
-	Walks  int    `json:"walks"` // random walks of this job
-	WalkLen int   `json:"walk_len"`
-	Runs   int    `json:"runs"` // random runs of this job
-	Reqs   int    `json:"reqs"`
-	Base   string `json:"base"`
-	Out    string `json:"out"` // trace output file (random)
+	Kind    string `json:"kind"`  // "graph" | "random"
+	Graph   string `json:"graph"` // compact graph file
+	Name    string `json:"name"`  // config name
+	Idx     int    `json:"idx"`
+	N       int    `json:"n"`
+	Inst    int    `json:"inst"`  // instantiations per behaviour
+	Walks   int    `json:"walks"` // random walks of this job
+	WalkLen int    `json:"walk_len"`
+	Runs    int    `json:"runs"` // random runs of this job
+	Reqs    int    `json:"reqs"`
+	Base    string `json:"base"`
+	Out     string `json:"out"` // trace output file (random)
 }
 
 type jobResult struct {
@@ -267,13 +267,13 @@ func child(c *core.Ctx) {
 }
 
 type graphCfg struct {
-	name   string
-	cfg    string
-	inst   int // instantiations per behaviour
-	walks  int
-	res    *tlc.Result
-	g      *cgraph
-	file   string
+	name    string
+	cfg     string
+	inst    int // instantiations per behaviour
+	walks   int
+	res     *tlc.Result
+	g       *cgraph
+	file    string
 	covered []bool
 }
 
@@ -313,15 +313,15 @@ func run(c *core.Ctx) {
 	var cfgs []*graphCfg
 	if c.Thorough() {
 		cfgs = []*graphCfg{
-			{name: "PrivValFull", cfg: "PrivValFull.cfg", inst: 8, walks: 6000},
-			{name: "PrivValKeys", cfg: "PrivValKeys.cfg", inst: 12, walks: 3000},
-			{name: "PrivVal3", cfg: "PrivVal3.cfg", inst: 4, walks: 6000},
+			{name: "PrivValFull", cfg: "PrivValFull.cfg", inst: 4, walks: 6000},
+			{name: "PrivValKeys", cfg: "PrivValKeys.cfg", inst: 6, walks: 3000},
+			{name: "PrivVal3", cfg: "PrivVal3.cfg", inst: 2, walks: 6000},
 		}
 	} else {
 		cfgs = []*graphCfg{
-			{name: "PrivVal", cfg: "PrivVal.cfg", inst: 2, walks: 200},
-			{name: "PrivValTime", cfg: "PrivValTime.cfg", inst: 2, walks: 200},
-			{name: "PrivValKeys", cfg: "PrivValKeys.cfg", inst: 2, walks: 200},
+			{name: "PrivVal", cfg: "PrivVal.cfg", inst: 1, walks: 200},
+			{name: "PrivValTime", cfg: "PrivValTime.cfg", inst: 1, walks: 200},
+			{name: "PrivValKeys", cfg: "PrivValKeys.cfg", inst: 1, walks: 200},
 		}
 	}
 	var wg sync.WaitGroup
@@ -350,14 +350,19 @@ func run(c *core.Ctx) {
 			}
 		}(i, d.cfg)
 	}
-	var bigRes *tlc.Result
-	if c.Thorough() {
-		wg.Add(1)
-		go func() {
-			defer wg.Done()
-			bigRes = runTLC(c, tlc.Options{SpecDir: specDir, Module: "PrivVal", Config: "PrivValBig.cfg", Workers: 4, Timeout: c.MinutesT(4, 20)})
-		}()
-	}
+	// thorough: the largest instance is checked exhaustively (not exported) beside everything else
+	bigCfgs := []string{"PrivValBig.cfg", "PrivValBigKeys.cfg"}
+	bigRes := make([]*tlc.Result, len(bigCfgs))
+	bigDone := make(chan struct{})
+	go func() {
+		defer close(bigDone)
+		if c.Thorough() {
+			for i, cfg := range bigCfgs {
+				bigRes[i] = runTLC(c, tlc.Options{SpecDir: specDir, Module: "PrivVal", Config: cfg, Workers: 4, Timeout: c.MinutesT(4, 12)})
+			}
+		}
+	}()
+	defer func() { <-bigDone }()
 	// meanwhile: the static scan and the random sequences (they do not need the graphs)
 	scanCallers(c)
 	nRandJobs := c.Pick(4, 12)
@@ -369,7 +374,7 @@ func run(c *core.Ctx) {
 		rwg.Add(1)
 		go func(i int) {
 			defer rwg.Done()
-			arg, _ := json.Marshal(job{Kind: "random", Name: "random", Idx: i, N: nRandJobs, Runs: c.Pick(10, 200), Reqs: c.Pick(120, 300), Base: base, Out: randOut[i]})
+			arg, _ := json.Marshal(job{Kind: "random", Name: "random", Idx: i, N: nRandJobs, Runs: c.Pick(10, 100), Reqs: c.Pick(120, 300), Base: base, Out: randOut[i]})
 			rs, at, crash := c.RunChild(string(arg), c.MinutesT(3, 15))
 			randResults[i] = rs
 			if crash != "" {
@@ -377,6 +382,23 @@ func run(c *core.Ctx) {
 			}
 		}(i)
 	}
+	// as soon as the random sequences are recorded TLC validates their traces (beside the replay jobs)
+	var traces *traceRuns
+	traceDone := make(chan struct{})
+	defer func() { <-traceDone }() // on every return path (runs before the scratch directory is removed)
+	go func() {
+		defer close(traceDone)
+		rwg.Wait()
+		var traceData []byte
+		for i := range randOut {
+			if b, err := ioutil.ReadFile(randOut[i]); err == nil {
+				traceData = append(traceData, b...)
+			}
+		}
+		if len(traceData) > 0 {
+			traces = runTraceValidation(c, specDir, traceData)
+		}
+	}()
 	wg.Wait()
 	dbg("tlc done")
 	for i, d := range devs {
@@ -391,15 +413,6 @@ func run(c *core.Ctx) {
 		}
 	}
 	c.SetExtra("deviations_caught_by_tlc", []string{"SignVoteWithoutSave -> AtMostOnePayloadPerHRS", "in-place save -> DurableBeforeRelease"})
-	if c.Thorough() {
-		if bigRes == nil {
-			return
-		}
-		if !bigRes.OK() {
-			c.Infra("PrivValBig: %s\n%s", bigRes.Describe(), bigRes.Tail)
-			return
-		}
-	}
 	exhaustive := true
 	for _, gc := range cfgs {
 		if gc.res == nil {
@@ -471,8 +484,6 @@ func run(c *core.Ctx) {
 	}
 	wg.Wait()
 	dbg("replay jobs done")
-	rwg.Wait()
-	dbg("random jobs done")
 
 	total := behStats{}
 	tables := map[string]int{}
@@ -523,8 +534,16 @@ func run(c *core.Ctx) {
 	}
 	c.SetExtra("graphs", cov)
 
-	// trace validation of the random sequences
-	var traceData []byte
+	<-bigDone
+	if c.Thorough() {
+		for i, r := range bigRes {
+			if r != nil && !r.OK() {
+				c.Infra("%s: %s\n%s", bigCfgs[i], r.Describe(), r.Tail)
+			}
+		}
+	}
+	// the random sequences, and TLC's judgement of their traces
+	<-traceDone
 	events, requests, released := 0, 0, 0
 	for i := range randResults {
 		res := collect(randResults[i])
@@ -534,13 +553,10 @@ func run(c *core.Ctx) {
 		events += res.Events
 		requests += res.Requests
 		released += res.Released
-		if b, err := ioutil.ReadFile(randOut[i]); err == nil {
-			traceData = append(traceData, b...)
-		}
 	}
 	c.SetExtra("random_sequences", map[string]interface{}{"requests": requests, "events_recorded": events, "signatures_released": released})
-	if events > 0 {
-		validateTraces(c, specDir, traceData, events)
+	if traces != nil {
+		judgeTraces(c, traces, events)
 	}
 	c.SetExtra("calls", map[string]interface{}{"total": total.Calls, "fresh_signing_calls": total.Fresh, "refused": total.Refused, "replayed": total.Replays,
 		"crashes": total.Crashes, "reloads": total.Reloads, "key_swaps": total.KeySwaps, "crash_points_observed": total.Points})
